@@ -37,7 +37,7 @@ def name_of(c):
 def legal(form, seg):
     k, v = seg
     if k == "ch":
-        bad = {"str": ("bsl", "dq", "nl"), "raw": ("bt",), "istr": ("bsl", "dq", "nl", "lb", "rb"), "iraw": ("bt", "lb", "rb")}[form]
+        bad = {"str": ("bsl", "dq", "nl"), "raw": ("bt",), "istr": ("bsl", "dq", "nl", "lb"), "iraw": ("bt", "lb")}[form]        # (a closing brace outside a hole is text)
         return v not in bad
     if k == "esc":
         return form in ("str", "istr")
